@@ -494,10 +494,14 @@ def o24(ctx):
         raise Unsupported("data argument of the block table is not the collected row list", ctors[0])
 
 
-def obligations():
+def _obligations():
     return [
         Obligation("O2.1", "library calls on the read/write paths exist in the installed pandas with these keywords/options", o21, floor=3),
         Obligation("O2.2", "writer output templates are tokenised by the reader's constants into the expected token roles", o22, floor=8),
         Obligation("O2.3", "writer: round(6) before formatting, cell text reads back to the value, no index cell, numbering", o23, floor=30),
         Obligation("O2.4", "reader: all-or-nothing numeric conversion per column on every block; empty block keeps labels", o24, floor=5),
     ]
+
+
+def obligations():
+    return _obligations() + [effects_obligation("C02")]
